@@ -644,14 +644,14 @@ func (db *DB) Transaction(fc func(tx *DB) error, opts ...*sql.TxOptions) (err er
 		// nested transaction
 		if !db.DisableNestedTransaction {
 			spID := new(maphash.Hash).Sum64()
-			err = db.SavePoint(fmt.Sprintf("sp%d", spID)).Error
+			err = db.Session(&Session{}).SavePoint(fmt.Sprintf("sp%d", spID)).Error
 			if err != nil {
 				return
 			}
 			defer func() {
 				// Make sure to rollback when panic, Block error or Commit error
 				if panicked || err != nil {
-					db.RollbackTo(fmt.Sprintf("sp%d", spID))
+					db.Session(&Session{}).RollbackTo(fmt.Sprintf("sp%d", spID))
 				}
 			}()
 		}
